@@ -567,7 +567,9 @@ func reifyMergeValue(
 		if err != nil {
 			return reflect.Value{}, err
 		}
-		return old, nil
+		// unpacked in place: the target keeps the value it holds (an
+		// interface typed target could not take the dereferenced value)
+		return oldValue, nil
 	}
 
 	switch baseType.Kind() {
